@@ -33,6 +33,27 @@ def handleSo (ws : List String) : String :=
       let r := iterOptions b t ps L
       if r.isEmpty then "-" else " ".intercalate (r.map showOpt)
     | _, _, _ => "bad-op"
+  | ["C", base, target, presets, f0, f1, idx, pl, ml, tl] =>
+    -- colour specification: `pl`/`ml`/`tl` = "<f0><f1>:<allowed indices * or csv>" for primaries / matrix / transfer function
+    let sub : String → Level := fun s =>
+      match s.splitOn ":" with
+      | [fl, v] =>
+        let ok : Int → Bool := if v == "*" then fun _ => true else
+          match csvInts v with | some l => fun x => l.contains x | none => fun _ => false
+        { flag := fun bb => if bb then fl.toList.getD 1 '0' == '1' else fl.toList.getD 0 '0' == '1', index := fun _ => true,
+          value := fun _ x => ok x }
+      | _ => { flag := fun _ => false, index := fun _ => false, value := fun _ _ => false }
+    match csvInts base, csvInts target, parsePresets presets with
+    | some b, some t, some (some ps) =>
+      let idxOk : Nat → Bool := if idx == "*" then fun _ => true else
+        match csvNats idx with | some l => fun i => l.contains i | none => fun _ => false
+      let L : CsLevel := { flag := fun bb => if bb then f1 == "1" else f0 == "1", index := idxOk, prim := sub pl, mat := sub ml, tf := sub tl }
+      let r := iterColorSpec b t ps L
+      if r.isEmpty then "-" else " ".intercalate (r.map (fun o => match o with
+        | .off => "off"
+        | .preset i => s!"p{i}"
+        | .custom p m t => "c" ++ showOpt p ++ "/" ++ showOpt m ++ "/" ++ showOpt t))
+    | _, _, _ => "bad-op"
   | "Z" :: rest =>
     let groups := (" ".intercalate rest).splitOn " / "
     let ls := groups.map (fun g => if g.trimAscii.toString == "-" then [] else (g.trimAscii.toString.splitOn ","))
